@@ -268,6 +268,40 @@ fn cfg_h() {
     outcome(format!("{:?} {:?}", r0, r1.1));
 }
 
+/// I: gate closed with TWO parked senders of the same channel (a sender and its
+/// clone); receiver 0 is dropped without receiving while the gate stays closed:
+/// every parked sender of the closed channel must be woken (and fail).
+fn cfg_i() {
+    let (txs, rxs) = channels::<u32>(2);
+    let mut txs = txs.into_iter();
+    let (tx0, tx1) = (txs.next().unwrap(), txs.next().unwrap());
+    let mut rxs = rxs.into_iter();
+    let (rx0, rx1) = (rxs.next().unwrap(), rxs.next().unwrap());
+    // close the gate from the main thread: both channels non-empty
+    block_on(async {
+        assert!(tx1.send(11).await.is_ok());
+        assert!(tx0.send(1).await.is_ok());
+    });
+    let tx0b = tx0.clone();
+    let ha = thread::spawn(move || {
+        let r = block_on(send_all(&tx0, &[2]));
+        drop(tx0);
+        r
+    });
+    let hb = thread::spawn(move || {
+        let r = block_on(send_all(&tx0b, &[3]));
+        drop(tx0b);
+        r
+    });
+    drop(rx0);
+    let ra = ha.join().unwrap(); // must not hang
+    let rb = hb.join().unwrap(); // must not hang
+    drop(tx1);
+    let g1 = block_on(drain(rx1));
+    assert_eq!(g1, vec![11]);
+    outcome(format!("{:?} {:?}", ra, rb));
+}
+
 static CONFIGS: &[Config] = &[
     Config { name: "A", desc: "channels(2): 2 sender threads x 2 sends, main drains both receivers concurrently", bound: (Some(2), Some(3)), body: cfg_a },
     Config { name: "B", desc: "channels(1): sender + clone in 2 threads x 2 sends, main drains (per-sender FIFO, exactly once)", bound: (Some(1), Some(2)), body: cfg_b },
@@ -277,6 +311,7 @@ static CONFIGS: &[Config] = &[
     Config { name: "F", desc: "partition_aware_channels(2,2): 2 input threads, main drains 4 receivers", bound: (Some(2), Some(3)), body: cfg_f },
     Config { name: "G", desc: "channels(2): one sender fills both channels and parks on the gate; two receiver threads; whoever empties first must wake it", bound: (Some(2), Some(3)), body: cfg_g },
     Config { name: "H", desc: "channels(2): gate closed, sender 0 parked; receiver 0 dropped without receiving must wake it (SendError) although the gate stays closed", bound: (Some(3), Some(5)), body: cfg_h },
+    Config { name: "I", desc: "channels(2): gate closed, a sender AND its clone both parked on channel 0; receiver 0 dropped without receiving must wake both", bound: (Some(3), Some(5)), body: cfg_i },
 ];
 
 fn main() {
